@@ -1,6 +1,9 @@
 import CharsetProof.Lemmas.Restrict
 import CharsetProof.Props.C09
+import CharsetProof.Props.C09b
 open Charset
+#print axioms C09_converse
+#print axioms mem_allCands_append
 #print axioms C09_restricted_same_verdict
 #print axioms C09_probe_indep
 #print axioms C09_restricted_current
